@@ -147,15 +147,76 @@ class Emitter:
                 return r
             if t.name.startswith('OpenVolumeMesh::') is False and ('OpenVolumeMesh::' + t.name) in self.ix.aliases and not t.args:
                 return self.canon(parse_type(self.ix.aliases['OpenVolumeMesh::' + t.name]))
-            nt = T('named', t.name, [self.canon(a) if isinstance(a, T) else a for a in t.args], const=t.const)
-            # nested-name aliases of std: vector<X>::size_type etc.
-            m = re.match(r'^(std::vector<.*>)::(size_type|difference_type)$', nt.name)
-            if m: return T('named', 'unsigned long' if m.group(2) == 'size_type' else 'long')
+            r = self.canon_std_nested(t)
+            if r is not None: return r
+            name = t.name
+            if name.startswith('__normal_iterator') or name.startswith('__alloc_traits'): name = '__gnu_cxx::' + name
+            if not name.startswith(('std::', '__gnu_cxx::', 'OpenVolumeMesh::', '(')) and name not in PRIM_C:
+                if '::' in name and not t.args:
+                    suf = [k for k in self.ix.aliases if k.endswith('::' + name)]
+                    if len(suf) == 1: return self.canon(parse_type(self.ix.aliases[suf[0]]))
+                    if len(set(self.ix.aliases[k] for k in suf)) == 1 and suf: return self.canon(parse_type(self.ix.aliases[suf[0]]))
+                for pre in ('OpenVolumeMesh::', 'OpenVolumeMesh::detail::', 'OpenVolumeMesh::IO::', 'OpenVolumeMesh::IO::detail::'):
+                    if pre + name in self.known_names() or (pre + name in self.ix.aliases and not t.args):
+                        break
+                else:
+                    pre = 'OpenVolumeMesh::'
+                cand = pre + name
+                if cand in self.known_names():
+                    name = cand
+                elif cand in self.ix.aliases and not t.args:
+                    return self.canon(parse_type(self.ix.aliases[cand]))
+            nt = T('named', name, [self.canon(a) if isinstance(a, T) else a for a in t.args], const=t.const)
             return nt
         if t.kind in ('ptr', 'ref', 'rref', 'array'):
             r = T(t.kind, name=t.name, inner=self.canon(t.inner), const=t.const)
             return r
         return t
+
+    def known_names(self):
+        if not hasattr(self, '_known'):
+            self._known = set()
+            for k in self.ix.records: self._known.add(re.sub(r'<.*$', '', k))
+            for nid, n in self.ix.by_id.items():
+                if n.get('kind') == 'EnumDecl' and nid in self.ix.qual: self._known.add(self.ix.qual[nid])
+        return self._known
+
+    def canon_std_nested(self, t):
+        """std::vector<X>::iterator and friends, __alloc_traits<...>::value_type"""
+        name = t.name
+        m = re.match(r'^(?:__gnu_cxx::)?__alloc_traits<.*>::(value_type|reference|const_reference)$', name)
+        if m:
+            inner = name[name.index('<') + 1: name.rindex('>')]
+            # second template argument is the value type
+            parts = _split_top(inner)
+            r = self.canon(parse_type(parts[1]))
+            return r
+        if name.startswith('std::enable_if<') and name.endswith('>::type'):
+            parts = _split_top(name[len('std::enable_if<'):-len('>::type')])
+            return self.canon(parse_type(parts[1])) if len(parts) > 1 else T('named', 'void')
+        if name.startswith('std::enable_if_t<'):
+            parts = _split_top(name[len('std::enable_if_t<'):-1])
+            return self.canon(parse_type(parts[1])) if len(parts) > 1 else T('named', 'void')
+        m = re.match(r'^(std::(?:vector|set)<.*>)::(\w+)$', name)
+        if m:
+            cont = self.canon(parse_type(m.group(1))); mem = m.group(2)
+            e = cont.args[0]
+            isvec = cont.name == 'std::vector'
+            if mem in ('size_type',): return T('named', 'unsigned long')
+            if mem == 'difference_type': return T('named', 'long')
+            if mem in ('value_type', 'key_type'): return e
+            if mem in ('reference', 'const_reference'):
+                if isvec and e.name == 'bool':
+                    return T('named', 'std::_Bit_reference') if mem == 'reference' else T('named', 'bool')
+                return T('ref', inner=e)
+            if mem in ('iterator', 'const_iterator'):
+                if isvec and e.name == 'bool': return T('named', 'std::_Bit_iterator')
+                if isvec: return T('named', '__gnu_cxx::__normal_iterator', [T('ptr', inner=e), cont])
+                return T('named', 'std::_Rb_tree_const_iterator', [e])
+            if mem in ('reverse_iterator', 'const_reverse_iterator'):
+                it = self.canon(parse_type(m.group(1) + '::iterator'))
+                return T('named', 'std::reverse_iterator', [it])
+        return None
 
     def ctype(self, t, ctx=None):
         """C type string for canonical type t"""
@@ -381,10 +442,12 @@ class Emitter:
         name = fn.get('name', '')
         base = name
         targs = ''
-        if '<' in qual.split('::')[-1] and not name.startswith('operator'):
-            targs = qual[qual.rindex(name) + len(name):]
-        elif name.startswith('operator') and qual.endswith('>') and '<' in qual[qual.rindex('operator'):] and name not in ('operator<', 'operator<<', 'operator<=', 'operator->', 'operator>', 'operator>>', 'operator>='):
-            targs = qual[qual.rindex(name) + len(name):]
+        rq = self.ix.qual.get(rid) if rid is not None else None
+        tail = qual[len(rq) + 2:] if rq and qual.startswith(rq + '::') else qual
+        if tail.startswith(name) and tail[len(name):].startswith('<') and tail.endswith('>') and name not in ('operator<', 'operator<<', 'operator<=', 'operator->'):
+            targs = tail[len(name):]
+        elif not rq and name and ('::' + name + '<') in qual and qual.endswith('>') and not name.startswith('operator'):
+            targs = qual[qual.rindex('::' + name + '<') + 2 + len(name):]
         if fn.get('kind') == 'CXXConstructorDecl': base = 'ctor'
         elif fn.get('kind') == 'CXXDestructorDecl': base = 'dtor'
         elif fn.get('kind') == 'CXXConversionDecl': base = 'conv_' + sanitize(name[len('operator '):])
@@ -636,8 +699,10 @@ class Emitter:
             return '%s = %s;' % (lv, self.move_expr(t, a))
         r = stdmap.construct_std(self, t, lv, e, kind)
         if r is not None: return r
-        if kind == 'default' and t.name == 'OpenVolumeMesh::HandleIndexing':
-            return self.default_init_stmt(t.args[1], lv)
+        if t.name == 'OpenVolumeMesh::HandleIndexing':
+            if kind == 'default': return self.default_init_stmt(t.args[1], lv)
+            r = stdmap.construct_std(self, t.args[1], lv, e, kind)
+            if r is not None: return r
         # OVM constructor
         ctor = self.find_ctor_decl(t, e)
         if ctor is None:
@@ -823,13 +888,34 @@ class Emitter:
         return self._globals
 
     def global_var(self, d):
-        # constexpr / static const globals with constant initialiser
+        """namespace/class-scope constant: integral constants inline; class-type constants through an init function"""
         v = None
-        for c in d.get('inner', []):
-            v = _const_value(c)
-        if v is None:
-            self.fail(d, 'global variable without constant value: ' + d.get('name', ''))
-        return str(v)
+        dd = d
+        # find the declaration carrying the initialiser (out-of-line definition of a static member)
+        cands = [d] + [n for n in self.ix.by_id.values() if n.get('kind') == 'VarDecl' and n.get('name') == d.get('name') and (n.get('previousDecl') == d['id'] or n.get('parentDeclContextId') == self.ix.parent_rec.get(d['id']))]
+        init = None
+        for c in cands:
+            for k in c.get('inner', []):
+                if 'valueCategory' in k: init = k; dd = c
+        if init is None:
+            self.fail(d, 'global variable without initialiser: ' + d.get('name', ''))
+        t = self.canon(parse_type(d['type'].get('desugaredQualType') or d['type']['qualType']))
+        if t.name in PRIM_C or self.is_enum(t):
+            v = _const_value(init)
+            if v is None: self.fail(d, 'global variable without constant value: ' + d.get('name', ''))
+            return str(v)
+        gname = 'ovm_global_' + sanitize(self.ix.qual.get(d['id'], d['name']))
+        if gname not in self.func_text:
+            self.func_text[gname] = None
+            prev = self.fc
+            self.fc = FuncCtx(gname); self.fc.root = dd; self.fc.self_t = None
+            ct = self.ctype(t)
+            body = self.with_temps(lambda: ['%s r;' % ct, self.init_into(t, 'r', init), 'return r;'])
+            self.fc = prev
+            self.func_text[gname] = ('%s %s(void)' % (ct, gname), body, None)
+            self.func_info[gname] = dict(qual=self.ix.qual.get(d['id']) + ' (constant, as init function)', loc=loc_of(dd), loops=[])
+        tmp = self.new_temp(self.ctype(t))
+        return '(*(%s = %s(), &%s))' % (tmp, gname, tmp)
 
     def field_is_ref(self, n):
         t = n.get('type', {})
@@ -1055,7 +1141,18 @@ class Emitter:
         return '(*(%s = %s, %s))' % (l, self.copy_expr(lt, rv), addr_of(l))
 
     def e_LambdaExpr(self, n):
-        self.fail(n, 'lambda expression (no rule yet)')
+        t = self.T_of(n)
+        rec = n['inner'][0]
+        fields = [c for c in rec.get('inner', []) if c.get('kind') == 'FieldDecl']
+        inits = [c for c in n['inner'][1:] if c.get('kind') != 'CompoundStmt']
+        tmp = self.new_temp(self.ctype(t))
+        if not fields: return tmp
+        parts = []
+        for i, (fd, ie) in enumerate(zip(fields, inits)):
+            ft = self.canon(parse_type(fd['type'].get('desugaredQualType') or fd['type']['qualType']))
+            if ft.is_ref(): parts.append('%s.cap%d = %s' % (tmp, i, addr_of(self.E(ie))))
+            else: parts.append(_stmts_to_commas(self.init_into(ft, '%s.cap%d' % (tmp, i), ie)).rstrip(','))
+        return '(%s, %s)' % (', '.join(parts), tmp)
 
     def e_CXXThrowExpr(self, n):
         self.fc.may_throw = True
@@ -1361,6 +1458,17 @@ class Emitter:
 
     def s_CXXTryStmt(self, n):
         self.fail(n, 'try/catch (no rule yet)')
+
+def _split_top(s):
+    out = []; d = 0; cur = ''
+    for ch in s:
+        if ch == '<': d += 1
+        elif ch == '>': d -= 1
+        if ch == ',' and d == 0:
+            out.append(cur.strip()); cur = ''
+        else: cur += ch
+    if cur.strip(): out.append(cur.strip())
+    return out
 
 def _prim(s):
     s2 = strip_parens(s)
